@@ -67,8 +67,8 @@ class Obs(SequencerObserver):
 
 def shards(tier, seed):
     out = []
-    n = 1500 if tier == "quick" else 50000
-    parts = 6 if tier == "quick" else 16
+    n = 6400 if tier == "quick" else 80000
+    parts = 8 if tier == "quick" else 16
     for i in range(parts):
         out.append({"name": "playbacks-%d" % i, "kind": "play", "n": n // parts, "weight": 8})
     out.append({"name": "controls-and-observers", "kind": "control", "weight": 2})
